@@ -100,7 +100,8 @@ CLAIMS = {
        "empty when the step points away, and that it panics exactly for a zero step or a wrong argument count; the proof found the int64 wrap-around defect (unbounded loop), repaired by a fix: commit. "
        "(2) package tables: one ground obligation per entry of env.Packages / env.PackageTypes (about 590): the entry is bound to the Go object (resolved by go/types) whose name is the key, in the package whose import path is the table's name; two declared exceptions. "
        "(3) core.Import/ImportToX define into the given environment only. (4) the typed-slice conversions: toSlice's contract over the trace of its reflect stores - element k of the new slice receives the converted k-th input, or the zero value when it is nil or not convertible, and the new slice is stored into the target. "
-       "Not yet under functional contract: keys, typeOf/kindOf, the scalar toX conversion builtins, len (only their panic-freedom obligations are generated, unclaimed).",
+       "(5) toInt on a string that is a decimal integer numeral is exactly strconv.ParseInt(s, 10, 64) (stated under the reflect fact that a string is not convertible to int). "
+       "Not yet under functional contract: keys, typeOf/kindOf, the other scalar toX builtins, len (only their panic-freedom obligations are generated, unclaimed).",
   note=TRUST + "Assumed: strconv/fmt/reflect.Convert semantics; Go's identifier resolution (go/types) is the oracle for the tables.",
   technique="contract-based deductive verification: loop invariants for the progression, ground obligations from the typed AST for the tables, z3/cvc5",
   ref="4 C19"),
@@ -131,7 +132,8 @@ CLAIMS = {
        "pointer/interface operands are compared through what they hold. vm.equal's postcondition is result == eqV(l, r) on nil and core pairs, invokeComparisonOperator's == returns exactly eqV and != exactly its negation on the operands as evaluated (activation trace), isNil/isNum/tryToBool have definitional contracts, "
        "and the lemma 'eqV is symmetric' is discharged by the solver. The proof found int==float comparing string renderings; repaired by a fix: commit. "
        "`switch` and `in` are specified with the relation vm.equal computes (equalR): a switch runs the first case whose expression is equalR to the subject, `x in list` is true exactly when some element of the list is equalR to x. "
-       "NOT decided: container structural equality (reflect.DeepEqual is abstracted as eqOther, ASSUMED symmetric) and string-vs-number equality (falls under eqOther).",
+       "Two slices or two maps are equal exactly when reflect.DeepEqual of what the operands hold says so (no identity shortcut). "
+       "NOT decided: that DeepEqual is the structural relation the statement means (trusted; assumed symmetric), string-vs-number equality (falls under the abstract eqOther).",
   note=TRUST + "Assumed: eqOther (DeepEqual and the mixed string/number path) is symmetric; reflect observers are functions of the value.",
   technique="contract-based deductive verification: postcondition result == eqV(...) plus a symmetry lemma, z3/cvc5",
   ref="4 C06"),
@@ -185,7 +187,8 @@ CLAIMS = {
        "WRITES - x[i] = v on a slice: in range, exactly ONE reflect store happens, into element i, of v converted to that element's type; at i == len the converted value is appended (element type of the slice) and assigned back; "
        "every error (non-numeric or out-of-range index, unassignable element, inconvertible value) leaves the container untouched: no store is made; m[k] = v writes only with a converted, hashable key and never writes the map when it fails; delete(m, k) removes (SetMapIndex with the zero Value) only a converted hashable key from the map m denotes and does not write on error. "
        "`a + b` / `a += b` on two slices of the same element type is exactly reflect.AppendSlice(a, b) - Go's append(a, b...) with Go's own sharing and growth rules, never a shortcut. "
-       "NOT decided: slicing (2- and 3-index) and storage sharing, append with element conversion, len, string element assignment, struct fields (read back / unknown field / conversion), reference semantics on assignment and call, typed literals and make; "
+       "x[lo:hi] on a slice is exactly reflect.Slice3(lo, hi, cap(x)) of what x denotes - Go's x[lo:hi] with its storage sharing and capacity. "
+       "NOT decided: the bound checks of slicing and the 3-index and string forms, append with element conversion, len, string element assignment, struct fields (read back / unknown field / conversion), reference semantics on assignment and call, typed literals and make; "
        "that the converted value HAS the declared type is reflect's Convert/MakeSlice/Zero typing (not stated as a postcondition of convertReflectValueToType beyond its identity and Go-conversion cases).",
   note=TRUST + "Assumed: reflect.Value.Index/MapIndex/Set/SetMapIndex/Append behave as documented (element i, key lookup, store, append); a reflect store is the only way the evaluators change a container (the trace records Set, SetMapIndex and Append only in functions that opt in).",
   technique="contract-based deductive verification: postconditions over the activation trace of reflect reads/stores, z3/cvc5",
@@ -195,7 +198,8 @@ CLAIMS = {
        "(2) convertReflectValueToType returns its argument unchanged when its type already is the target type or the target is interface{}, and otherwise - when Go's reflect says the value is convertible - returns exactly reflect's own conversion to the target type; "
        "(3) processCallReturnValues hands back all results of a Go function: none -> nil, one -> that value, and never manufactures an error for a Go function; (4) argument building evaluates the arguments once, in order (C07) and spreads the list the last operand denotes (C20); "
        "(5) member syntax on a Go struct value (directly, behind an interface or through one pointer) yields the method of that name when there is one, and otherwise the exported field of that name at the index path reflect.Type.FieldByName reports - promoted fields of embedded structs included. "
-       "NOT decided: element-wise slice/array/map conversion, nil -> zero value, string -> byte/rune, pointer conversion; the callback adapter (script function as Go func); that each argument is converted to ITS parameter type in all four call shapes; several results as a list; member WRITES, pointer-receiver methods on addressable values and copies. "
+       "(6) the callback adapter (a script function handed to Go as a func value) always inspects the (value, error) pair the script function returned and returns normally only when the error is nil - otherwise it panics with the error, which the recover region of the enclosing script call turns into that call's error; a single declared result is the value converted to the declared type. "
+       "NOT decided: element-wise slice/array/map conversion, nil -> zero value, string -> byte/rune, pointer conversion; the arguments the adapter passes and several declared results; that each argument is converted to ITS parameter type in all four call shapes; several results as a list; member WRITES, pointer-receiver methods on addressable values and copies. "
        "These need a typed model of reflect (assignability/convertibility relation, method sets) that the contracts do not have.",
   note=TRUST + "Assumed: reflect.Value.Convert is Go's conversion; reflect.Value.Type / Type.ConvertibleTo are functions of their arguments.",
   technique="contract-based deductive verification: postconditions on the conversion and result-normalisation helpers, z3/cvc5",
@@ -248,7 +252,10 @@ def main():
                   'kind_free_text': 'self-built verification-condition generator over go/ssa (NaiveForm) of /repo\'s working tree; contracts in //go:build verif comment files in /repo; obligations discharged by z3 5.1.0 / z3 4.8.12 / cvc5 1.0.3'}],
      'checks': checks,
      'not_applicable': na,
-     'notes': 'Technique family: contract-based deductive verification of the real code. See DESIGN.md. Exit codes: 0 held, 1 VIOLATION, 2 engine problem.',
+     'notes': 'Technique family: contract-based deductive verification of the real code. See DESIGN.md (section 8 is the as-built record). Exit codes: 0 held, 1 VIOLATION, 2 engine problem. '
+              'A VIOLATION line ends with no-failing-input-found unless a replay reproduced the failure on the real code: LR table facts are replayed from their witness (replay/lrtable); '
+              'failed obligations of the operator evaluators, of core range and of astutil run a BOUNDED search harness (replay/operators, replay/range, replay/walker) that prints a concrete failing input when it finds one - labelled as bounded search in the replay file, never counted as proof. '
+              'Claimed obligations are those that discharged when /verif/baseline/<id>.json was written; generated obligations that never discharged are listed there as unproved, are not claimed and are counted separately in the evidence.',
     }
     json.dump(m, open(f'{V}/MANIFEST.json','w'), indent=1)
     print('claimed:', sorted(CLAIMS), 'hooks:', len(hooks))
